@@ -17,7 +17,7 @@ CHECKS = {
     "C15": (
         "model_checking",
         "exhaustive enumeration of hash-map iteration orders (process-level hash seed owned through a getrandom shim, seeds enumerated until every permutation of every observable map occurred) x specifications; digests of all public queries and of generated code compared across processes; thread schedules of first use explored with shuttle in the ctrt crate",
-        "The harness re-executes itself under 48 (thorough 256) different, owned hash seeds. In each process every specification (a declaration-rich grammar in three yacc kinds incl. Eco with 3-4 implicit tokens, 3 %avoid_insert / precedence / %epp tokens, states with 3 outgoing edges and several conflicts; every grammar of a universe; the seed grammars; family F-gc: tables whose construction strands a state, so that the final renumbering walks hash maps of edges) is turned into grammar, state graph and table on a fresh thread, and three grammar/lexer pairs are run through the real compile-time builders. The digest of the complete query dump (conflicts as a set) and of the generated files must be identical in all processes. For every randomly seeded map reachable through the public API (ast.implicit_tokens, avoid_insert, precs, epp, graph edges of 3-edge states) the iteration orders seen are recorded and the run is only reported exhaustive when every permutation of every such map occurred. Thread schedules: one real generated parser module is re-bound at build time from ::std::sync::OnceLock to a stand-in with the same API whose lock operations are shuttle scheduling points; shuttle's depth-first scheduler explores ALL interleavings of 3 threads each calling parse twice (first + cached use; 4666 schedules) and of 2 threads with an extra scheduling point between the fast-path look and the lock (659 schedules): every thread must get the sequential result and the parser data must be reconstituted exactly once per execution.",
+        "The harness re-executes itself under 48 (thorough 256) different, owned hash seeds. In each process every specification (a declaration-rich grammar in three yacc kinds incl. Eco with 3-4 implicit tokens, 3 %avoid_insert / precedence / %epp tokens, states with 3 outgoing edges and several conflicts; every grammar of a universe; the seed grammars; families F-gc, F-lalr4 and part of F-pager: tables whose construction strands states or splits off several states while re-processing, i.e. the places where the table construction walks hash maps of edges) is turned into grammar, state graph and table on a fresh thread, and three grammar/lexer pairs are run through the real compile-time builders. The digest of the complete query dump (conflicts as a set) and of the generated files must be identical in all processes. For every randomly seeded map reachable through the public API (ast.implicit_tokens, avoid_insert, precs, epp, graph edges of 3-edge states) the iteration orders seen are recorded and the run is only reported exhaustive when every permutation of every such map occurred. Thread schedules: one real generated parser module is re-bound at build time from ::std::sync::OnceLock to a stand-in with the same API whose lock operations are shuttle scheduling points; shuttle's depth-first scheduler explores ALL interleavings of 3 threads each calling parse twice (first + cached use; 4666 schedules) and of 2 threads with an extra scheduling point between the fast-path look and the lock (659 schedules): every thread must get the sequential result and the parser data must be reconstituted exactly once per execution.",
         "Orders of maps that are never exposed cannot be observed (same seeds run). std::sync::OnceLock is trusted.",
         "DESIGN.md 3/C15",
     ),
@@ -108,14 +108,14 @@ CHECKS = {
     "C01": (
         "model_checking",
         "bounded-exhaustive enumeration of grammars x token strings; real parser vs Earley recogniser and derivation-tree validator",
-        "Every grammar of the listed universes (incl. the one-token universes U(2,1,2,3,7) / U(2,1,2,4,8) / U(2,1,3,3,8), the smallest that contain tables whose construction strands a state) and structured families (F-lalr, F-lalr3: two-item kernels reached over paths of different lengths, F-gc: stranded-state tables with their edit-distance-1 neighbourhoods, F-wide: skeletons moved to token indices 62-120 and rule indices up to 65, empty-production / chain / ternary / operator skeletons, seed grammars) that table construction accepts is parsed by the real parser on every token string up to the length bound (alphabets of more than five tokens: additionally every sentence of up to 7 lexemes with its prefixes and single-token substitutions, deletions and insertions); every clean acceptance must return a tree that is a derivation of exactly that input from the start rule and must be a sentence according to an independent Earley recogniser; on conflict-free tables acceptance must equal membership in both directions. The references are cross-checked against brute-force language enumeration on each run. The per-state automaton certificate (closure exactness, edge kernels, start kernel, table = automaton) that extends the verdict to all inputs of each grammar is evaluated by C16/C03 on the same grammars.",
+        "Every grammar of the listed universes (incl. the one-token universes U(2,1,2,3,7) / U(2,1,2,4,8) / U(2,1,3,3,8), the smallest that contain tables whose construction strands a state) and structured families (F-lalr, F-lalr3: two-item kernels reached over paths of different lengths, F-gc: stranded-state tables with their edit-distance-1 neighbourhoods, F-pager: the stored family of all 23,872 grammars of eight universes up to U(2,2,3,4,8) / U(2,2,2,5,9) - about 110 million grammars, enumerated exhaustively by vcheck --gen-pager-family - whose Pager construction garbage-collects states or creates states while re-processing a changed state, F-wide: skeletons moved to token indices 62-120 and rule indices up to 65, empty-production / chain / ternary / operator skeletons, seed grammars) that table construction accepts is parsed by the real parser on every token string up to the length bound (alphabets of more than five tokens: additionally every sentence of up to 7 lexemes with its prefixes and single-token substitutions, deletions and insertions); every clean acceptance must return a tree that is a derivation of exactly that input from the start rule and must be a sentence according to an independent Earley recogniser; on conflict-free tables acceptance must equal membership in both directions. The references are cross-checked against brute-force language enumeration on each run. The per-state automaton certificate (closure exactness, edge kernels, start kernel, table = automaton) that extends the verdict to all inputs of each grammar is evaluated by C16/C03 on the same grammars.",
         "Inputs longer than the bound and grammars larger than the universes are outside the claim; grammars with derivation cycles are checked at table level only.",
         "DESIGN.md 3/C01",
     ),
     "C02": (
         "model_checking",
         "bounded-exhaustive enumeration of LR(1) grammars x token strings; Pager-minimised automaton vs an independent canonical LR(1) construction and parser",
-        "For every grammar of the universes, the LR(1)-not-LALR(1) families (all subsets of the classic counter-example and two variants; every 3-6 production subset of {x,y} {A,B} {a,b,c} with three suffix tokens in both rule orders, so that weakly-compatible, incompatible and subset contexts all occur), family F-lalr3 (for each of the prefixes p, q, r r, s s s either nothing or 'prefix A u | prefix B v' with A: x y; B: x y and every ordered pair u != v of four suffix tokens, optionally 'prefix C' with C: x z: late merges, re-propagation to successors, stranded states), F-gc, F-wide, the seed grammars and their complete edit-distance-1 neighbourhood whose canonical LR(1) automaton is conflict-free: the real construction must report no conflicts and no more states than the canonical automaton, and for every input up to the bound the real parser and the canonical LR(1) parser must return the same tree or fail at the same lexeme.",
+        "For every grammar of the universes, the LR(1)-not-LALR(1) families (all subsets of the classic counter-example and two variants; every 3-6 production subset of {x,y} {A,B} {a,b,c} with three suffix tokens in both rule orders, so that weakly-compatible, incompatible and subset contexts all occur), family F-lalr3 (for each of the prefixes p, q, r r, s s s either nothing or 'prefix A u | prefix B v' with A: x y; B: x y and every ordered pair u != v of four suffix tokens, optionally 'prefix C' with C: x z: late merges, re-propagation to successors, stranded states), F-lalr4 (two-item kernels one level down with a third party feeding the same successor states: a re-processed state splits off two states in one pass), F-gc, F-pager (stored, see C01), F-wide, the seed grammars and their complete edit-distance-1 neighbourhood whose canonical LR(1) automaton is conflict-free: the real construction must report no conflicts and no more states than the canonical automaton, and for every input up to the bound the real parser and the canonical LR(1) parser must return the same tree or fail at the same lexeme.",
         "Late merges that need longer propagation chains than these grammars contain are outside the bound.",
         "DESIGN.md 3/C02",
     ),
